@@ -584,6 +584,47 @@ func (rs *runState) judge(prop string, clientFinished bool, out *core.Outcome) {
 			sim.Probe("unsolicited-fault")
 		}
 	}
+	// probe: a CONNECTED line without parameter reaches the host while a
+	// listener is active and a TARGET is pending (the listener indexes the list)
+	{
+		listenAt := time.Duration(-1)
+		for _, c := range calls {
+			if c.Op == "listen" && c.returned() && c.OK && listenAt < 0 {
+				listenAt = c.End
+			}
+		}
+		byDlv := append([]*ardoptnc.Emission(nil), snap.Emissions...)
+		sort.SliceStable(byDlv, func(i, j int) bool { return byDlv[i].DeliveredAt < byDlv[j].DeliveredAt })
+		target := false
+		for _, e := range byDlv {
+			if e.Kind != "ctl" || e.Bad || e.DeliveredAt < 0 {
+				continue
+			}
+			f := strings.Fields(strings.ToUpper(e.Text))
+			if len(f) == 0 {
+				continue
+			}
+			switch f[0] {
+			case "TARGET":
+				target = len(f) > 1
+			case "CANCELPENDING", "DISCONNECTED":
+				target = false
+			case "CONNECTED":
+				if len(f) == 1 && target && listenAt >= 0 && e.DeliveredAt > listenAt && (rs.tncClose < 0 || e.DeliveredAt < rs.tncClose) {
+					sim.Probe("connected-without-parameter-after-target-while-listening")
+				}
+				if len(f) == 1 {
+					sim.Probe("connected-without-parameter")
+				}
+				target = false
+			}
+		}
+		for _, e := range snap.Emissions {
+			if e.Kind == "ctl" && e.Malformed && e.DeliveredAt >= 0 && e.Script != "idle" {
+				sim.Probe("malformed-line-inside-" + e.Script + "-sequence")
+			}
+		}
+	}
 	for _, cr := range conns {
 		if cr.Via == "accept" {
 			sim.Probe("accept-path")
